@@ -72,6 +72,22 @@ theorem cstep_reg {cl lf : Bool} {y x : Conn} {a : CAct} {e : Eff}
     (e ≠ .add ∧ preReg y.pc = false ∧ x.regClosing = y.regClosing ∧ (y.sockClosed = true → x.sockClosed = true)) := by
   cstep_cases h <;> cases cl <;> simp_all [preReg]
 
+/-- the socket is closed, or the handler is inside its own `conn.Close()` (the close has begun; the socket is closed
+    when that call returns, `closeDone`) -/
+def sockDone (x : Conn) : Prop := x.sockClosed = true ∨ x.pc = .closingSock
+
+/-- no step of a handler takes that back: a closed socket stays closed, and the only step out of `closingSock` is the
+    return of the call, which leaves the socket closed -/
+theorem cstep_sockDone {cl lf : Bool} {y x : Conn} {a : CAct} {e : Eff}
+    (h : cstep cl lf y a = some (x, e)) (hy : sockDone y) : sockDone x := by
+  unfold sockDone at *
+  cstep_cases h <;> cases cl <;> simp_all
+
+/-- what `Close`'s `conn.Close()` leaves behind: the socket closed, or the handler inside its own Close -/
+theorem sockDone_sweepClose (x : Conn) : sockDone (sweepClose x) := by
+  unfold sockDone sweepClose
+  by_cases h : x.pc = .closingSock <;> simp [h]
+
 theorem cstep_counted_reg {cl lf : Bool} {y x : Conn} {a : CAct} {e : Eff}
     (h : cstep cl lf y a = some (x, e)) (hx : counted x.pc = true) :
     (e = .add ∧ x.regClosing = cl) ∨ (e ≠ .add ∧ counted y.pc = true ∧ x.regClosing = y.regClosing) := by
@@ -222,8 +238,8 @@ structure Inv (s : State) : Prop where
       ∀ c, counted (s.conns c).pc = true → (s.conns c).regClosing = true
   errCtx : ∀ k, ((s.shuts k).pc = .retErr ∨ (s.shuts k).pc = .doneErr) → (s.shuts k).done.isSome = true
   afterClose : ∀ k, closeSwept (s.closes k) = true → ∀ c, preReg (s.conns c).pc = false →
-      (s.conns c).sockClosed = true ∨ (s.conns c).regClosing = true
-  sweep : ∀ k, s.closes k = .closedCh → ∀ c, c ∈ s.registered → c ∈ s.sweepLeft ∨ (s.conns c).sockClosed = true
+      sockDone (s.conns c) ∨ (s.conns c).regClosing = true
+  sweep : ∀ k, s.closes k = .closedCh → ∀ c, c ∈ s.registered → c ∈ s.sweepLeft ∨ sockDone (s.conns c)
 
 theorem inv_initCfg (nl : Bool) (sg : List Sig) : Inv (initCfg nl sg) := by
   constructor <;> simp [initCfg, cnt, holdsLock, shutHolds, closeHolds, shutClosed, closeClosed, inMap, counted,
